@@ -294,12 +294,13 @@ class WSGIRequestHandler(BaseHTTPRequestHandler):
                 # length. Do not use for 1xx and 204 responses. 304
                 # responses and HEAD requests are also excluded, which
                 # is the more conservative behavior and matches other
-                # parts of the code.
+                # parts of the code. The method is the one of the request
+                # line, the application may have changed its environ.
                 # https://httpwg.org/specs/rfc7230.html#rfc.section.3.3.1
                 if (
                     not (
                         "content-length" in header_keys
-                        or environ["REQUEST_METHOD"] == "HEAD"
+                        or self.command == "HEAD"
                         or (100 <= code < 200)
                         or code in {204, 304}
                     )
